@@ -133,7 +133,7 @@ PROPS["C05"] = {
 PROPS["C06"] = {
     "units": ["dbfacade", "scalars", "engine", "txstore", "rawblock", "table", "blockdb", "codec"],
     "kani": [],
-    "level_text": "Proof on Brc20ProgDatabase::set_tx_receipt: after Ok the transaction row, the receipt row, the (block,index)->hash row and the inscription->hash row all carry the same hash, block hash, block number and index; set_block_hash: number->hash and hash->number invert each other; LogED::new_vec: log indexes run contiguously from the start index and every log carries its transaction's hash, index, block hash and number; get_block_tx_count = number of (block,index) rows of the block; generate_block on its real body: the block lists exactly the transaction hashes recorded under (block, 0), (block, 1), .. in index order, its count field is their number, it carries the number and hash it was generated for, its parent is the recorded hash of the previous block (zero for block 0) and a missing parent is an error; add_tx_to_block stores transaction, receipt and trace under get_tx_hash(tx, account nonce) (site precondition) and get_tx_hash is the keccak of sender, nonce, target, data (functional postcondition); the tail of add_tx_to_block's closure (lifted, unit txstore): the receipt is stored with the block's running gas total INCLUDING this transaction as cumulative gas and with the block's running log count BEFORE it as first log index, under the hash / index / number / nonce / gas limit of this transaction; afterwards the running totals have advanced by exactly this transaction (one more waiting transaction, gas, logs), and the receipt handed back is the one the store serves; finalise_block's closure (lifted, unit txstore): the block record stored under the number is the one generated for exactly the supplied hash / number / timestamp and the gas total of the block being built, the raw block is the raw form of that record, and the hash - which is what makes the block visible - is recorded last, after the record, the raw block and the pruning of the pool; the two closures of RawBlock::new (lifted, unit rawblock): a raw receipt carries the stored receipt's cumulative gas, status, logs and bloom, a raw transaction the stored nonce, target, value, input, chain id, gas limit and signature; eth_getLogs order (C18).",
+    "level_text": "Proof on Brc20ProgDatabase::set_tx_receipt: after Ok the transaction row, the receipt row, the (block,index)->hash row and the inscription->hash row all carry the same hash, block hash, block number and index; set_block_hash: number->hash and hash->number invert each other; LogED::new_vec: log indexes run contiguously from the start index and every log carries its transaction's hash, index, block hash and number; get_block_tx_count = number of (block,index) rows of the block; every point getter (get_tx_by_hash, get_tx_hash_by_block_number_and_index, get_tx_hash_by_block_hash_and_index, get_tx_hash_by_inscription_id, get_tx_trace, get_account_info, get_account_memory, get_code, get_inscription_id_by_contract_address, get_block, get_raw_block_by_number) serves the current row of the table its setter writes, under the same key, and set_block / set_raw_block store under the block's own number; generate_block on its real body: the block lists exactly the transaction hashes recorded under (block, 0), (block, 1), .. in index order, its count field is their number, it carries the number and hash it was generated for, its parent is the recorded hash of the previous block (zero for block 0) and a missing parent is an error; add_tx_to_block stores transaction, receipt and trace under get_tx_hash(tx, account nonce) (site precondition) and get_tx_hash is the keccak of sender, nonce, target, data (functional postcondition); the tail of add_tx_to_block's closure (lifted, unit txstore): the receipt is stored with the block's running gas total INCLUDING this transaction as cumulative gas and with the block's running log count BEFORE it as first log index, under the hash / index / number / nonce / gas limit of this transaction; afterwards the running totals have advanced by exactly this transaction (one more waiting transaction, gas, logs), and the receipt handed back is the one the store serves; finalise_block's closure (lifted, unit txstore): the block record stored under the number is the one generated for exactly the supplied hash / number / timestamp and the gas total of the block being built, the raw block is the raw form of that record, and the hash - which is what makes the block visible - is recorded last, after the record, the raw block and the pruning of the pool; the two closures of RawBlock::new (lifted, unit rawblock): a raw receipt carries the stored receipt's cumulative gas, status, logs and bloom, a raw transaction the stored nonce, target, value, input, chain id, gas limit and signature; eth_getLogs order (C18).",
     "level_note": COMMON_TRUST + "Narrow. Rule N29 keeps only the index arguments of TxReceiptED::new / TxED::new (the other arguments are revm/alloy values). NOT covered: bloom and merkle root (dropped from generate_block by N13: uninterpreted libraries), the header literal of RawBlock::new and the RLP encoding itself (alloy), the generate_raw_block body.",
     "assumptions": ["N29: in units dbfacade / engine the constructors TxED::new / TxReceiptED::new are reduced to their index arguments (what they store is proved in unit codec); BlockResponseED::new assumed to store hash / count / number / transactions / parent hash in the fields of that name", "generate_raw_block not under contract", "U128ED compares as its encoding does (Kani u128ed_order)"],
 }
